@@ -413,6 +413,17 @@ func TestVP_C09_finalization(t *testing.T) {
 				if chain.IsPledging() && s.RoundNumber == 0 {
 					ref = append(ref, chain.ChainId)
 				}
+				// reference certificate threshold: more than two thirds of the accepted
+				// members counted at this time (genesis, or accepted more than the
+				// 30 s reference maturity ago, without the predictable removal
+				// candidate); a smaller threshold would let fewer members finalize
+				if m.Mature30s >= config.KernelMinimumNodesCount {
+					if tref := m.Mature30s*2/3 + 1; T < tref {
+						rt.Fatalf("certificate threshold at epoch+%d on %s is %d, reference %d (counted members %d)\nops=%v", int64(s.Timestamp-h.Epoch), tg.name, T, tref, m.Mature30s, h.Ops)
+					}
+				} else if T <= 64 {
+					rt.Fatalf("certificate threshold at epoch+%d on %s is %d although only %d members count (minimum %d)\nops=%v", int64(s.Timestamp-h.Epoch), tg.name, T, m.Mature30s, config.KernelMinimumNodesCount, h.Ops)
+				}
 				if fmt.Sprint(ref) != fmt.Sprint(cids) {
 					rt.Fatalf("consensus key vector at epoch+%d on %s differs from the reference:\n code=%v\n ref =%v\nops=%v", int64(s.Timestamp-h.Epoch), tg.name, cids, ref, h.Ops)
 				}
